@@ -104,7 +104,15 @@ func zzvRender(recs []ChartConfig, o zzvRenderOpts) string {
 				oi := strings.Index(val, "{")
 				head, list := val[:oi+1], strings.TrimSuffix(val[oi+1:], "}")
 				buckets := strings.Split(list, ",")
-				b.WriteString(key + ":" + sp + head + "\n")
+				// the line that opens the list may carry trailing blanks or a comment, like any other
+				tail := ""
+				if o.blanks {
+					tail = "  "
+				}
+				if o.comments {
+					tail += " # buckets follow"
+				}
+				b.WriteString(key + ":" + sp + head + tail + "\n")
 				for bi, bk := range buckets {
 					sep := ","
 					if bi == len(buckets)-1 {
@@ -120,7 +128,11 @@ func zzvRender(recs []ChartConfig, o zzvRenderOpts) string {
 					}
 					b.WriteString("\t" + bk + sep + c + "\n")
 				}
-				b.WriteString("}\n")
+				if o.comments {
+					b.WriteString("} # end of the list\n")
+				} else {
+					b.WriteString("}\n")
+				}
 			} else {
 				c := ""
 				if o.comments {
